@@ -32,12 +32,12 @@ ASSUMPTIONS = ["six 1.17 shim", "consonance randint(float) coerced", "alternatio
                "connected(k+1) before disconnected(k)); accounting is", "disconnect requests are only issued while a "
                "connection is up or being established", "pong timing keeps a margin from the tick (the instant in between is not judged)"]
 BUDGET = {"quick": (1500, 170), "thorough": (80000, 2700)}
-FAULTS = ["connect_refused", "peer_fin", "rst", "srv_no_pong", "srv_late_pong", "stream_error", "login_failure", "tcp_cut"]
+FAULTS = ["srv_garbage_frame", "connect_refused", "peer_fin", "rst", "srv_no_pong", "srv_late_pong", "stream_error", "login_failure", "tcp_cut"]
 PROBES = ["write_raced_with_close_by_other_thread", "failure_or_stream_error_crossed_client_close", "auto_reconnect_after_stream_error", "no_reconnect_after_conflict", "no_reconnect_option_off", "ping_timeout_disconnect",
           "pings_all_answered_no_disconnect", "passive_key_upload_reboot", "failure_closes_connection", "socket_dispatcher",
           "app_disconnect_while_connecting", "connected_before_previous_disconnected"]
 SHRINK = ["conns"]
-ENDS = ["stream_error:conflict", "stream_error:ack", "stream_error:xml-not-well-formed", "peer_close", "rst", "app_disconnect",
+ENDS = ["stream_error:conflict", "stream_error:ack", "stream_error:xml-not-well-formed", "stream_error:system-shutdown", "garbage_frame", "peer_close", "rst", "app_disconnect",
         "ping_never", "ping_late", "ping_ok_then_close", "app_disconnect_early", "app_disconnect_connecting"]
 _S = {}
 
@@ -223,9 +223,14 @@ class W(fullwire.FullWorld):
         orig_wait = iq.waitPong
         w = self
 
-        def waitPong(pid):
-            w.client_pings.append({"t": w.k.now, "id": pid, "attempt": w.net.connect_count - 1, "pong_at": None})
-            return orig_wait(pid)
+        def waitPong(pid, *a, **kw):
+            rec = {"t": w.k.now, "id": pid, "attempt": w.net.connect_count - 1, "pong_at": None}
+            w.client_pings.append(rec)
+            r = orig_wait(pid, *a, **kw)
+            if r is False:
+                # the layer refused to register it (a keep-alive thread that does not belong to this connection)
+                w.client_pings.remove(rec)
+            return r
 
         iq.waitPong = waitPong
         if self.dispatcher == "socket":
@@ -291,6 +296,18 @@ class W(fullwire.FullWorld):
         t = sp.get("t", 0.0)
         if end.startswith("stream_error"):
             self.k.call_later(t, lambda: self.fire_stream_error(c, end.split(":")[1]))
+        elif end == "garbage_frame":
+            # a frame that does not decrypt: the receive path raises, which both dispatchers answer by closing the
+            # connection and announcing it down
+            def garbage():
+                if not c.dead:
+                    from doubles.noise_server import frame
+                    self.k.note("srv sends a frame that does not decrypt", c.no)
+                    self.faults["srv_garbage_frame"] = self.faults.get("srv_garbage_frame", 0) + 1
+                    self.net.server_send(c.conn, frame(b"\x13" * 40))
+            # not right behind the login result: frames queued during the handshake are handled on the handshake thread,
+            # where a failure ends that thread and nothing else (observed, not part of this property)
+            self.k.call_later(max(t, 0.3), garbage)
         elif end == "peer_close":
             self.k.call_later(t, lambda: (self.k.note("srv closes", c.no), c.close()))
         elif end == "rst":
